@@ -256,7 +256,7 @@ pub fn run_case(c: &Case, out: &mut String, st: &mut Stats, snapshots: bool) -> 
                     if let (Some(p), true) = (pos, isrec) {
                         reported.push(p);
                     }
-                    let (sets, sp) = sets_json(&slots, false);
+                    let (sets, sp) = sets_json(&slots, c.views);
                     if sp {
                         st.panics += 1;
                         stop = true;
